@@ -30,20 +30,22 @@ Case(nt, useref, down, mf, merge, toff, mode, tf, s, inv, prop, plane, fmt, expo
    q |-> [down |-> down, mf |-> mf, merge |-> merge, toff |-> toff, mode |-> mode, md |-> 0, tf |-> tf, g |-> GT, s |-> s,
           inv |-> inv, prop |-> prop, plane |-> plane]]
 Admissible(x) ==
-  /\ (x.q.merge => Len(x.trajs) >= 2 /\ x.fmt # "kitti")
+  /\ (x.q.merge => x.fmt # "kitti")          \* merging a single trajectory yields that trajectory
   /\ (x.q.mode # "none" => x.useref /\ (Len(x.trajs) = 1 \/ x.q.merge \/ (x.q.mode \in {"sync", "origin"} /\ x.fmt # "kitti")))
   /\ (x.q.mode \in {"rigid", "sim", "scale", "scaleorigin"} => x.q.down = 0 /\ x.q.mf = 0)        \* keep the point sets non-degenerate
   /\ (x.q.mf >= 10000 => Len(x.trajs) = 1 /\ x.q.down = 0)
+  /\ (x.q.down = 9 => N(x.ref) <= 9 /\ \A k \in DOMAIN x.trajs : N(x.trajs[k]) <= 9)      \* a target above every pose count: nothing is dropped
+                                                                                          \* (Down is only specified for targets 1, 2 and >= count)
   /\ (x.q.mode = "rigid" => FALSE)                                                                \* the inputs differ by a scale of 2
   /\ (x.fmt = "kitti" => x.q.toff = 0 /\ x.q.mode \notin {"sync"} /\ x.export = "kitti")
   /\ (x.q.tf = "none" => x.q.s = 1 /\ ~x.q.inv /\ ~x.q.prop)
-  /\ (x.q.prop => x.q.tf = "right")
+  /\ (x.q.prop => x.q.tf # "none")          \* with --transform_left the propagation switch has no effect: still T * P
   /\ (x.q.tf = "right" => x.q.s = 1)                                  \* right-multiplying with a scaled matrix is not a documented operation
   /\ (x.q.plane # "none" /\ x.q.tf = "right" => FALSE)                \* right-multiplication needs determined orientations afterwards anyway
 Weight(nt, useref, down, mf, merge, toff, mi, ti, s, inv, prop, pi, fi, ei) ==
   nt + 2 * (IF useref THEN 1 ELSE 0) + 3 * down + 5 * mf + 7 * (IF merge THEN 1 ELSE 0) + 11 * toff + 13 * mi + 17 * ti + 19 * s
   + 23 * (IF inv THEN 1 ELSE 0) + 29 * (IF prop THEN 1 ELSE 0) + 31 * pi + 37 * fi + 41 * ei
-Init == \E nt \in 1..3, useref \in BOOLEAN, down \in {0, 1, 2}, mf \in {0, 5, 2001, 10005}, merge \in BOOLEAN, toff \in {0, 2}, mode \in Modes,
+Init == \E nt \in 1..3, useref \in BOOLEAN, down \in {0, 1, 2, 9}, mf \in {0, 5, 2001, 10005}, merge \in BOOLEAN, toff \in {0, 2}, mode \in Modes,
            tf \in {"none", "left", "right"}, s \in {1, 2}, inv \in BOOLEAN, prop \in BOOLEAN, plane \in {"none", "xy", "yz"},
            fmt \in {"tum", "euroc", "kitti", "bag"}, export \in {"tum", "kitti"} :
           LET x == Case(nt, useref, down, mf, merge, toff, mode, tf, s, inv, prop, plane, fmt, export) IN
